@@ -171,10 +171,9 @@ namespace ST
             if (this == &copy)
                 return *this;
 
-            if (is_reffed()) {
-                delete[] m_chars;
-                m_size = 0;
-            }
+            // Don't leave m_chars dangling if the allocation below throws
+            if (is_reffed())
+                clear();
 
             if (copy.is_reffed()) {
                 m_chars = new char_T[copy.m_size + 1];
@@ -412,13 +411,17 @@ namespace ST
 
         void allocate(size_t size)
         {
+            // Get the new storage first, so that the buffer is left
+            // untouched if the allocation throws
+            char_T *chars = (size >= local_length) ? new char_T[size + 1] : m_data;
+
             if (is_reffed())
                 delete[] m_chars;
             else
                 traits_t::assign(m_data, local_length, 0);
 
             m_size = size;
-            m_chars = is_reffed() ? new char_T[m_size + 1] : m_data;
+            m_chars = chars;
             m_chars[m_size] = 0;
         }
 
